@@ -57,12 +57,23 @@ def plan_st(draw, tier, ctx=None):
     kind, arms = draw(gen.arms_st(("int", "str"), 1, 4))
     npn = draw(st.sampled_from(NPS))
     npd = draw(gen.np_st([npn], arms, prob_ok=False, defaults_ok=True)) if npn else None
-    lp = ["ThompsonSampling", {"binarizer": draw_binarizer(draw, arms, npn, ctx, gen.POOLS[kind])}]
+    late = draw(st.integers(0, 3)) == 0      # no binarizer at construction: the first one arrives with add_arm
+    lp = ["ThompsonSampling", {} if late else {"binarizer": draw_binarizer(draw, arms, npn, ctx, gen.POOLS[kind])}]
     cfg = {"arms": arms, "lp": lp, "np": npd, "seed": draw(st.integers(0, 2 ** 20)), "n_jobs": 1, "backend": None,
            "arm_kind": kind}
-    h = gen.History(draw, cfg, reward_family=draw(st.sampled_from(["S", "Sint", "B"])),
+    fam = draw(st.sampled_from(["S", "Sint", "B"]))
+    h = gen.History(draw, cfg, reward_family="B" if late else fam,
                     grid=draw(st.sampled_from(["int", "small"])), max_rows=8)
     h.fit() if draw(st.integers(0, 3)) else h.partial_fit()
+    if late:
+        if draw(st.booleans()):
+            h.query()
+        if h.can_add():
+            h.add_arm(draw_binarizer(draw, h.arms, npn, ctx, gen.POOLS[kind]))
+            h.family = fam
+            if draw(st.booleans()):
+                h.query()        # the new binarizer is for subsequent observations: stored rewards stay as they are
+            h.partial_fit(omit=False)
     for _ in range(draw(st.integers(1, 8 if tier == "quick" else 14))):
         k = draw(st.sampled_from(["partial_fit", "partial_fit", "fit", "add_arm", "add_arm_b", "remove_arm", "query",
                                   "query"]))
@@ -88,8 +99,13 @@ def evaluate(plan, ctx):
     cfg2 = dict(cfg, lp=["ThompsonSampling", {}])
     a = ops.build(cfg)
     b = ops.build(cfg2)
-    cur = binarizers.make(cfg["lp"][1]["binarizer"])
-    descs = [cfg["lp"][1]["binarizer"]]
+    first = cfg["lp"][1].get("binarizer")
+    cur = binarizers.make(first) if first is not None else (lambda d, r: r)     # no binarizer yet: rewards as given
+    descs = [first] if first is not None else []
+    if first is None:
+        ev_late = True
+    else:
+        ev_late = False
     any_one = False
     ev = twin.pair_events(cfg)
     for i, op in enumerate(plan["ops"]):
@@ -112,11 +128,13 @@ def evaluate(plan, ctx):
         if not ops.outputs_equal(oa, ob):
             raise Violation("binarized_once", "op %d %s: bandit with binarizer %s, twin fed pre-converted rewards %s"
                             % (i, ops.short(op, 100), ops.short(oa), ops.short(ob)),
-                            bucket="binarized_once:" + (cfg["np"][0] if cfg["np"] else "none"))
+                            bucket="binarized_once:" + (cfg["np"][0] if cfg["np"] else "none") + (":late" if ev_late else ""))
     arms_all = set(cfg["arms"]) | {op[1] for op in plan["ops"] if op[0] == "add_arm"}
     non_idem = any(binarizers.make(dsc)(arm, v) != v for dsc in descs for arm in arms_all for v in (0, 1))
     if non_idem:
         ev.append("binarizer_not_identity_on_01")
+    if ev_late:
+        ev.append("first_binarizer_installed_by_add_arm")
     return Result(non_idem and any_one, ev)
 
 
